@@ -205,6 +205,202 @@ def coalesce_copies(func):
             break
 
 
+def coalesce_block_copies(func):
+    """``a = b`` as a statement of any block, where every occurrence of the local b lies in the
+    earlier statements of that same block, a does not occur in them, they contain no
+    break / continue, no enclosing ``try`` of the block reads a in a handler or finally clause,
+    and neither name is a parameter or captured by a nested function: b is the working name of
+    a; rename b to a and drop the copy (what inlining a helper that builds and returns a value
+    leaves behind)."""
+    params = set()
+    a_ = func.args
+    for x in a_.posonlyargs + a_.args + a_.kwonlyargs + [a_.vararg, a_.kwarg]:
+        if x is not None:
+            params.add(x.arg)
+
+    def occurrences(node, name):
+        k = 0
+        for n in ast.walk(node):
+            if isinstance(n, ast.Name) and n.id == name:
+                k += 1
+            elif isinstance(n, ast.ExceptHandler) and n.name == name:
+                k += 1
+        return k
+
+    def blocks_of(st):
+        for f in ('body', 'orelse', 'finalbody'):
+            v = getattr(st, f, None)
+            if isinstance(v, list) and v and isinstance(v[0], ast.stmt):
+                yield f, v
+        for h in getattr(st, 'handlers', ()):
+            yield 'handler', h.body
+
+    def visit(block, guards):
+        """guards: names read by handlers / finally clauses of the enclosing try statements"""
+        idx = 0
+        while idx < len(block):
+            st = block[idx]
+            if isinstance(st, _FUNC) or isinstance(st, ast.ClassDef):
+                idx += 1
+                continue
+            if isinstance(st, ast.Assign) and len(st.targets) == 1 and isinstance(st.targets[0], ast.Name) \
+                    and isinstance(st.value, ast.Name) and idx > 0:
+                a, b = st.targets[0].id, st.value.id
+                captured = set()
+                for n in ast.walk(func):
+                    if n is not func and isinstance(n, _FUNC):
+                        captured.update(x.id for x in ast.walk(n) if isinstance(x, ast.Name))
+                    elif isinstance(n, (ast.Global, ast.Nonlocal)):
+                        captured.update(n.names)
+                before = block[:idx]
+                inb = sum(occurrences(s2, b) for s2 in before)
+                if a != b and not ({a, b} & (params | captured)) and a not in guards \
+                        and inb >= 1 and inb == occurrences(func, b) - 1 \
+                        and not any(occurrences(s2, a) for s2 in before) \
+                        and not any(isinstance(n, (ast.Break, ast.Continue)) for s2 in before for n in ast.walk(s2)) \
+                        and any(isinstance(n, ast.Name) and n.id == b and isinstance(n.ctx, ast.Store) for s2 in before for n in ast.walk(s2)):
+                    for s2 in before:
+                        for n in ast.walk(s2):
+                            if isinstance(n, ast.Name) and n.id == b:
+                                n.id = a
+                            elif isinstance(n, ast.ExceptHandler) and n.name == b:
+                                n.name = a
+                    del block[idx]
+                    continue
+            for kind, b2 in blocks_of(st):
+                g2 = guards
+                if isinstance(st, ast.Try) and kind == 'body':
+                    g2 = set(guards)
+                    for h in st.handlers:
+                        g2.update(n.id for s2 in h.body for n in ast.walk(s2) if isinstance(n, ast.Name))
+                    g2.update(n.id for s2 in st.finalbody for n in ast.walk(s2) if isinstance(n, ast.Name))
+                visit(b2, g2)
+            idx += 1
+
+    visit(func.body, set())
+
+
+def _table_elem_ok(e, multi):
+    """an element of a literal table that may be re-evaluated where it is used: names, dotted
+    names, constants (always); displays / lambdas of those when used at most once"""
+    if isinstance(e, (ast.Name, ast.Constant)):
+        return True
+    if isinstance(e, ast.Attribute):
+        return _table_elem_ok(e.value, multi)
+    if multi:
+        return False
+    if isinstance(e, (ast.Tuple, ast.List, ast.Set)):
+        return all(_table_elem_ok(x, False) for x in e.elts)
+    if isinstance(e, ast.Dict):
+        return all(k is not None and _table_elem_ok(k, False) for k in e.keys) and all(_table_elem_ok(v, False) for v in e.values)
+    if isinstance(e, ast.Lambda):
+        return True
+    return False
+
+
+def unroll_literal_table_loops(func):
+    """``for a, b in ((x1, y1), (x2, y2), ...): body`` over a literal display (written in place or
+    bound to a local just before and used for nothing else), without break / continue / else /
+    return and without rebinding the loop variables: the body once per row, the row's elements
+    substituted for the variables.  Table-driven code is compared in its unrolled form; the
+    elements must be re-evaluable (names, constants, or displays used at most once)."""
+    def blocks_of(st):
+        for f in ('body', 'orelse', 'finalbody'):
+            v = getattr(st, f, None)
+            if isinstance(v, list) and v and isinstance(v[0], ast.stmt):
+                yield v
+        for h in getattr(st, 'handlers', ()):
+            yield h.body
+
+    def try_unroll(block, i):
+        st = block[i]
+        if not isinstance(st, ast.For) or st.orelse:
+            return False
+        it = st.iter
+        drop_prev = False
+        if isinstance(it, ast.Name) and i > 0:
+            prev = block[i - 1]
+            if isinstance(prev, ast.Assign) and len(prev.targets) == 1 and isinstance(prev.targets[0], ast.Name) \
+                    and prev.targets[0].id == it.id and isinstance(prev.value, (ast.Tuple, ast.List)) \
+                    and sum(1 for n in ast.walk(func) if isinstance(n, ast.Name) and n.id == it.id) == 2:
+                it = prev.value
+                drop_prev = True
+        if not isinstance(it, (ast.Tuple, ast.List)) or not (1 <= len(it.elts) <= 40):
+            return False
+        if isinstance(st.target, ast.Name):
+            tvars = [st.target.id]
+            rows = [[e] for e in it.elts]
+        elif isinstance(st.target, ast.Tuple) and all(isinstance(x, ast.Name) for x in st.target.elts):
+            tvars = [x.id for x in st.target.elts]
+            rows = []
+            for e in it.elts:
+                if not (isinstance(e, (ast.Tuple, ast.List)) and len(e.elts) == len(tvars)):
+                    return False
+                rows.append(list(e.elts))
+        else:
+            return False
+        for s2 in st.body:
+            for n in ast.walk(s2):
+                if isinstance(n, (ast.Break, ast.Continue, ast.Return, ast.Yield, ast.YieldFrom) + _FUNC):
+                    return False
+                if isinstance(n, ast.Name) and n.id in tvars and not isinstance(n.ctx, ast.Load):
+                    return False
+        # the loop variables are not read after the loop
+        uses_in = {v: sum(1 for s2 in st.body for n in ast.walk(s2) if isinstance(n, ast.Name) and n.id == v) for v in tvars}
+        for v in tvars:
+            total = sum(1 for n in ast.walk(func) if isinstance(n, ast.Name) and n.id == v)
+            if total != uses_in[v] + 1:
+                return False
+        for row in rows:
+            for v, e in zip(tvars, row):
+                if not _table_elem_ok(e, uses_in[v] > 1):
+                    return False
+        out = []
+        for row in rows:
+            env = dict(zip(tvars, row))
+
+            class Put(ast.NodeTransformer):
+                def visit_Name(self, node):
+                    if node.id in env and isinstance(node.ctx, ast.Load):
+                        return ast.copy_location(copy.deepcopy(env[node.id]), node)
+                    return node
+            for s2 in st.body:
+                out.append(_KwSplat().visit(Put().visit(copy.deepcopy(s2))))
+        lo = i - 1 if drop_prev else i
+        block[lo:i + 1] = out
+        return True
+
+    def visit(block):
+        i = 0
+        while i < len(block):
+            st = block[i]
+            if isinstance(st, _FUNC):
+                i += 1
+                continue
+            if try_unroll(block, i):
+                continue
+            for b in blocks_of(st):
+                visit(b)
+            i += 1
+    visit(func.body)
+
+
+class _KwSplat(ast.NodeTransformer):
+    """``f(**{'k': v})`` with constant identifier keys is ``f(k=v)``"""
+    def visit_Call(self, node):
+        self.generic_visit(node)
+        kws = []
+        for k in node.keywords:
+            if k.arg is None and isinstance(k.value, ast.Dict) and all(
+                    isinstance(x, ast.Constant) and isinstance(x.value, str) and x.value.isidentifier() for x in k.value.keys):
+                for kk, vv in zip(k.value.keys, k.value.values):
+                    kws.append(ast.copy_location(ast.keyword(arg=kk.value, value=vv), k))
+            else:
+                kws.append(k)
+        node.keywords = kws
+        return node
+
+
 def inline_adjacent_temps(func, log=None):
     """``t = e`` immediately followed by a statement that holds the only other occurrence of
     the local t (a load, evaluated once: not under a lambda, comprehension or loop header):
@@ -556,8 +752,59 @@ def split_tuple_assign(func):
     func.body = fix(func.body)
 
 
+def _stable_test(e, stores):
+    """a test whose value cannot change while the function runs and whose evaluation has no
+    effect: identity comparisons and isinstance / issubclass over type(p) / p / module-level
+    names, p never rebound in the function; combined with not / and / or"""
+    def operand(x):
+        if isinstance(x, ast.Constant):
+            return True
+        if isinstance(x, ast.Name):
+            return not stores.get(x.id)
+        if isinstance(x, ast.Call) and isinstance(x.func, ast.Name) and x.func.id in ('type', 'id') and len(x.args) == 1 \
+                and not x.keywords and not stores.get(x.func.id):
+            return operand(x.args[0])
+        if isinstance(x, ast.Tuple):
+            return all(operand(y) for y in x.elts)
+        return False
+    if isinstance(e, ast.Compare) and len(e.ops) == 1 and isinstance(e.ops[0], (ast.Is, ast.IsNot)):
+        return operand(e.left) and operand(e.comparators[0])
+    if isinstance(e, ast.Call) and isinstance(e.func, ast.Name) and e.func.id in ('isinstance', 'issubclass') and len(e.args) == 2 \
+            and not e.keywords and not stores.get(e.func.id):
+        return operand(e.args[0]) and operand(e.args[1])
+    if isinstance(e, ast.UnaryOp) and isinstance(e.op, ast.Not):
+        return _stable_test(e.operand, stores)
+    if isinstance(e, ast.BoolOp):
+        return all(_stable_test(v, stores) for v in e.values)
+    return False
+
+
+def _len_stable(func, before, p_, stores):
+    """``len(p_)`` has one value throughout: p_ is a parameter or a local bound once, earlier in the
+    same block, and is only ever measured or read by subscript (never handed to a call that could
+    grow it, never stored into, never the receiver of a method)"""
+    if stores.get(p_, 0) > 1:
+        return False
+    if stores.get(p_) == 1 and not any(isinstance(b, ast.Assign) and len(b.targets) == 1 and isinstance(b.targets[0], ast.Name)
+                                       and b.targets[0].id == p_ for b in before):
+        return False
+    par = {}
+    for n in ast.walk(func):
+        for c in ast.iter_child_nodes(n):
+            par[id(c)] = n
+    for n in ast.walk(func):
+        if isinstance(n, ast.Name) and n.id == p_ and isinstance(n.ctx, ast.Load):
+            q = par.get(id(n))
+            if isinstance(q, ast.Call) and isinstance(q.func, ast.Name) and q.func.id == 'len' and n in q.args:
+                continue
+            if isinstance(q, ast.Subscript) and q.value is n and isinstance(q.ctx, ast.Load):
+                continue
+            return False
+    return True
+
+
 def propagate_type_temps(func):
-    """``v = type(p)`` / ``v = id(p)`` with p a name that is never rebound in the function and
+    """``v = type(p)`` / ``v = id(p)`` / ``v = len(p)`` (p of stable length, see _len_stable) with p a name that is never rebound in the function and
     v assigned only there, every use of v following the assignment inside its block:
     substitute the call for v and drop the assignment (undoes common-subexpression extraction
     of the two identity-only builtins)"""
@@ -569,7 +816,7 @@ def propagate_type_temps(func):
             stores[n.name] = stores.get(n.name, 0) + 1
         elif isinstance(n, ast.arg):
             pass
-    shadow = {n.id for n in ast.walk(func) if isinstance(n, ast.Name) and n.id in ('type', 'id')
+    shadow = {n.id for n in ast.walk(func) if isinstance(n, ast.Name) and n.id in ('type', 'id', 'len')
               and isinstance(n.ctx, ast.Store)}
     if shadow:
         return
@@ -591,11 +838,31 @@ def propagate_type_temps(func):
                 continue
             done = False
             if isinstance(st, ast.Assign) and len(st.targets) == 1 and isinstance(st.targets[0], ast.Name) \
+                    and not isinstance(st.value, ast.Call) and stores.get(st.targets[0].id) == 1 \
+                    and _stable_test(st.value, stores):
+                # a named identity / class test: ``is_t = type(spec) is TType``
+                v = st.targets[0].id
+                rest = block[i + 1:]
+                inside = sum(1 for s2 in rest for n in ast.walk(s2) if isinstance(n, ast.Name) and n.id == v)
+                total = sum(1 for n in ast.walk(func) if isinstance(n, ast.Name) and n.id == v)
+                in_nested = any(isinstance(n, ast.Name) and n.id == v for s2 in rest for f2 in ast.walk(s2)
+                                if isinstance(f2, _FUNC + (ast.Lambda,)) for n in ast.walk(f2))
+                if inside == total - 1 and inside >= 1 and not in_nested:
+                    class Put2(ast.NodeTransformer):
+                        def visit_Name(self, node):
+                            if node.id == v and isinstance(node.ctx, ast.Load):
+                                return ast.copy_location(copy.deepcopy(st.value), node)
+                            return node
+                    for k in range(i + 1, len(block)):
+                        block[k] = Put2().visit(block[k])
+                    del block[i]
+                    continue
+            if isinstance(st, ast.Assign) and len(st.targets) == 1 and isinstance(st.targets[0], ast.Name) \
                     and isinstance(st.value, ast.Call) and isinstance(st.value.func, ast.Name) \
-                    and st.value.func.id in ('type', 'id') and len(st.value.args) == 1 and not st.value.keywords \
+                    and st.value.func.id in ('type', 'id', 'len') and len(st.value.args) == 1 and not st.value.keywords \
                     and isinstance(st.value.args[0], ast.Name):
                 v, p_ = st.targets[0].id, st.value.args[0].id
-                if stores.get(v) == 1 and not stores.get(p_) and v != p_:
+                if stores.get(v) == 1 and v != p_ and (not stores.get(p_) if st.value.func.id != 'len' else _len_stable(func, block[:i], p_, stores)):
                     rest = block[i + 1:]
                     inside = sum(1 for s2 in rest for n in ast.walk(s2) if isinstance(n, ast.Name) and n.id == v)
                     total = sum(1 for n in ast.walk(func) if isinstance(n, ast.Name) and n.id == v)
@@ -704,20 +971,54 @@ class _OrDefault(ast.NodeTransformer):
         return new
 
 
+_OPERATOR_CMP = {'gt': ast.Gt, 'lt': ast.Lt, 'ge': ast.GtE, 'le': ast.LtE, 'eq': ast.Eq, 'ne': ast.NotEq,
+                 'is_': ast.Is, 'is_not': ast.IsNot}
+_OPERATOR_BIN = {'add': ast.Add, 'sub': ast.Sub, 'mul': ast.Mult, 'truediv': ast.Div, 'floordiv': ast.FloorDiv,
+                 'mod': ast.Mod, 'pow': ast.Pow, 'and_': ast.BitAnd, 'or_': ast.BitOr, 'xor': ast.BitXor,
+                 'lshift': ast.LShift, 'rshift': ast.RShift, 'matmul': ast.MatMult}
+
+
+class _OperatorCalls(ast.NodeTransformer):
+    """``operator.gt(a, b)`` is ``a > b`` (likewise the other comparison / arithmetic functions of
+    the standard operator module, called directly with two positional arguments); only in a
+    module that imports ``operator`` as such and never rebinds the name"""
+    def visit_Call(self, node):
+        self.generic_visit(node)
+        f = node.func
+        if isinstance(f, ast.Attribute) and isinstance(f.value, ast.Name) and f.value.id == 'operator' \
+                and len(node.args) == 2 and not node.keywords and not any(isinstance(a, ast.Starred) for a in node.args):
+            if f.attr in _OPERATOR_CMP:
+                return ast.copy_location(ast.Compare(left=node.args[0], ops=[_OPERATOR_CMP[f.attr]()], comparators=[node.args[1]]), node)
+            if f.attr in _OPERATOR_BIN:
+                return ast.copy_location(ast.BinOp(left=node.args[0], op=_OPERATOR_BIN[f.attr](), right=node.args[1]), node)
+        return node
+
+
+def _operator_is_the_module(tree):
+    imported = any(isinstance(n, ast.Import) and any(a.name == 'operator' and a.asname is None for a in n.names) for n in tree.body)
+    rebound = any(isinstance(n, ast.Name) and n.id == 'operator' and not isinstance(n.ctx, ast.Load) for n in ast.walk(tree)) or \
+        any(isinstance(n, ast.arg) and n.arg == 'operator' for n in ast.walk(tree))
+    return imported and not rebound
+
+
 def apply_all(tree):
     tree = _DictCopy().visit(tree)
     tree = _OrDefault().visit(tree)
     tree = _PositiveElse().visit(tree)
+    if isinstance(tree, ast.Module) and _operator_is_the_module(tree):
+        tree = _OperatorCalls().visit(tree)
     for node in ast.walk(tree):
         if isinstance(node, (ast.FunctionDef, ast.AsyncFunctionDef)):
             no_else_after_terminating_if(node)
             split_chained_assign(node)
             split_tuple_assign(node)
+            unroll_literal_table_loops(node)
             append_loop_to_comprehension(node)
             propagate_type_temps(node)
             if_assign_to_ifexp(node)
             for_range_to_while(node)
             coalesce_copies(node)
+            coalesce_block_copies(node)
             inline_adjacent_temps(node)
     return tree
 
